@@ -284,6 +284,15 @@ def main():
             hits2.append(rel)
     put("bool", "srpModulesHaveNoSharedState", lambda: not hits2, "no Cell/RefCell/Mutex/Atomic*/static/thread_local!/Rc/Arc in the SRP modules" + (" — found in: " + ", ".join(hits2) if hits2 else ""))
 
+    for nm, rels in [("pinModuleHasNoSharedState", ["src/pin.rs"]), ("integrityModuleHasNoSharedState", ["src/integrity.rs"]),
+                     ("matrixCardModuleHasNoSharedState", ["src/matrix_card.rs", "src/rc4.rs"])]:
+        hh = []
+        for rel in rels:
+            text = src(rel)
+            if not text or bad.search(text) or re.search(r'\bstatic\b', text):
+                hh.append(rel)
+        put("bool", nm, lambda hh=hh: not hh, "no Cell/RefCell/Mutex/Atomic*/static/thread_local!/Rc/Arc in " + ", ".join(rels) + (" — found in: " + ", ".join(hh) if hh else ""))
+
     # field order of every hash computation (translator leg for C02/C03/C05/C06/C08/C09/C16/C17/C18)
     srpc = src("src/srp_internal_client.rs")
     vint = src("src/vanilla_header/internal.rs")
